@@ -23,6 +23,7 @@ class Cfg:
         self.cached = 0.12
         self.replace = 0.2
         self.warm = 0.5          # probability that a cached node gets warm-up ops
+        self.replay_family = 0.12  # share of cases of the shape Concat[.., warm Cached(multi-piece), mapped ..]
         self.bufs = 0.1          # binary leaves
         self.invalid_utf8 = 0.0
         self.maxdepth = 4
@@ -390,10 +391,34 @@ def kinds_of(n, acc, depth=0, under_repl=False):
         if n[5] is not None: acc.add('combined')
     return acc
 
+def replay_family(rng, g):
+    """the bundler's shape: a warm CachedSource over a multi-piece rope (lines spanning pieces, line
+    breaks inside pieces) as a non-last child of a Concat whose later children are mapped"""
+    def piece():
+        n = rng.randrange(1, 7)
+        t = ''.join(rng.choice('ab;\n\n{}x ') for _ in range(n))
+        k = rng.random()
+        if k < 0.55:
+            return ('orig', t, g.file_name(t))
+        if k < 0.8:
+            return ('raws', t)
+        return g.leaf()
+    inner_kids = [(False, piece()) for _ in range(rng.randrange(2, 6))]
+    inner = ('concat', rng.choice(['new', 'add']), inner_kids)
+    if rng.random() < 0.3:
+        inner = ('repl', inner, g.replacements(text_of(inner)))
+    cid = g.next_id
+    g.next_id += 1
+    for _ in range(rng.randrange(1, 3)):
+        g.warm.append((cid, rng.choice(['m1', 'm0', 's10', 's00', 's11', 's01', 'm1', 's11'])))
+    tail = [(False, piece()) for _ in range(rng.randrange(1, 3))]
+    head = [(False, piece())] if rng.random() < 0.3 else []
+    return ('concat', 'new', head + [(False, ('cached', cid, inner))] + tail)
+
 def gen_tree_case(rng, cfg):
     g = Gen(rng, cfg)
     d = weighted(rng, [(0, 1), (1, 3), (2, 4), (3, 3), (cfg.maxdepth, 2)])
-    t = g.node(d)
+    t = replay_family(rng, g) if (cfg.cached > 0 and rng.random() < cfg.replay_family) else g.node(d)
     feats = kinds_of(t, set())
     if d >= 1 and len(text_of(t)) >= 2:
         feats.add('nontrivial')
